@@ -304,8 +304,9 @@ class Check:
         invariant violation is a *result* (res.violated), not a failure, when
         expect_violation is True."""
         cfg = cfg or module
-        n = len(self.tlc_runs)
-        meta = self.path(f"meta_{n}")
+        import uuid
+
+        meta = self.path("meta_" + uuid.uuid4().hex[:12])  # unique per call: ck.tlc may be called from several threads
         cmd = [
             "java",
             "-XX:+UseParallelGC",
